@@ -478,3 +478,17 @@ pub fn permutations(n: usize) -> Vec<Vec<usize>> {
     rec(&mut vec![], &mut vec![false; n], n, &mut out);
     out
 }
+
+// ------------------------------------------------------------------------------------------------
+// Animator state alphabet: two animated candidates and two un-animated states.
+
+#[derive(Clone, Copy, Debug, Default, PartialEq, Eq, Hash, State)]
+pub enum S4 {
+    #[default]
+    X,
+    Y,
+    U1,
+    U2,
+}
+
+pub const S4_ALL: [S4; 4] = [S4::X, S4::Y, S4::U1, S4::U2];
